@@ -130,8 +130,13 @@ fn join_source(g: &mut Gen, key_off: u16) -> usize {
 }
 
 pub fn gen_join(t: &mut Tape) -> Scenario {
+    gen_join_opts(t, false)
+}
+
+/// `force_loop`: always the variant with the join inside a loop body (C05)
+pub fn gen_join_opts(t: &mut Tape, force_loop: bool) -> Scenario {
     let mut g = Gen::new(t, profile("join"));
-    let mode = g.t.draw(6);
+    let mode = if force_loop { 3 } else { g.t.draw(6) };
     if mode == 5 {
         // interval join over timestamped scripted sources
         let mut o = script_opts(g.t, 0);
@@ -176,7 +181,7 @@ pub fn gen_join(t: &mut Tape) -> Scenario {
     let loop_variant = mode == 4 || mode == 3;
     // inside loops the stateful sides of the local join algorithms matter most: bias towards
     // sort-merge and outer variants there
-    let op = if loop_variant && !matches!(op, BinOp::Merge) && g.t.draw(2) == 1 {
+    let op = if loop_variant && !matches!(op, BinOp::Merge) && (g.t.draw(2) == 1 || force_loop) {
         let kind = [JoinKind::Outer, JoinKind::Left, JoinKind::Inner][g.t.draw(3) as usize];
         let form = [JoinForm::HashSortMerge, JoinForm::HashHash, JoinForm::Shortcut][g.t.draw(3) as usize];
         BinOp::Join(kind, form)
